@@ -6,6 +6,7 @@ import (
 	"github.com/csgura/fp"
 	"github.com/csgura/fp/fn0"
 	"github.com/csgura/fp/fn1"
+	"github.com/csgura/fp/iterator"
 	"github.com/csgura/fp/lazy"
 	"github.com/csgura/fp/list"
 )
@@ -242,7 +243,12 @@ func IterOf[T any](e *Env, p []T) fp.Iterator[T] {
 
 func OpIterator[T any](e *Env, i int, vs ...T) func() fp.Iterator[T] {
 	p := prefix(e, i, vs)
-	return func() fp.Iterator[T] { return IterOf(e, p) }
+	return func() fp.Iterator[T] {
+		if len(p) == 0 && i%2 == 1 {
+			return fp.Iterator[T]{} // the zero value is the empty iterator
+		}
+		return IterOf(e, p)
+	}
 }
 
 // NestedIterator is an iterator of 0..2 fresh inner iterators.
@@ -272,10 +278,13 @@ func KIterator(e *Env, id string, letter int, args ...string) fp.Iterator[string
 // ---- lazy.Eval ----------------------------------------------------------------------------
 
 func OpEval[T any](e *Env, i int, vs ...T) func() lazy.Eval[T] {
-	how := e.X.Choose(3, "ctor@"+Itoa(i))
+	how := e.X.Choose(4, "ctor@"+Itoa(i))
 	e.Position(i, false, "")
 	return func() lazy.Eval[T] {
 		switch how {
+		case 3:
+			// the zero value is a legal Eval (Resume documents it): it evaluates to the zero T
+			return lazy.Eval[T]{}
 		case 0:
 			return lazy.Done(vs[0])
 		case 1:
@@ -285,7 +294,7 @@ func OpEval[T any](e *Env, i int, vs ...T) func() lazy.Eval[T] {
 	}
 }
 
-const KLEval = 3
+const KLEval = 4
 
 func KEval(e *Env, id string, letter int, args ...string) lazy.Eval[string] {
 	e.Call(id, anys(args)...)
@@ -294,6 +303,8 @@ func KEval(e *Env, id string, letter int, args ...string) lazy.Eval[string] {
 		return lazy.Done(enc(id, args))
 	case 1:
 		return lazy.Call(func() string { return enc(id, args) })
+	case 3:
+		return lazy.Eval[string]{}
 	}
 	return lazy.TailCall(func() lazy.Eval[string] {
 		return lazy.Done(args[0]).Map(func(s string) string { return s + "'" })
@@ -513,4 +524,77 @@ func AltPtr(l int) *string {
 	}
 	s := "alt"
 	return &s
+}
+
+// ---- instrumented sources ------------------------------------------------------------------
+
+// SourceKinds is the number of ways Source builds an iterator.
+const SourceKinds = 3
+
+// Source is a fresh single-use iterator over xs whose every HasNext/Next is a logged callback
+// (the source of a fold/traverse is upstream user code: after the first failing element none of
+// it may run). kind 0: the logged iterator itself; kind 1: a logged iterator that also yields
+// rejected elements (one before every element of xs and two after the last), behind
+// Iterator.Filter with a logged predicate; kind 2: the same behind iterator.FilterMap with a
+// logged function. With kinds 1 and 2 a consumer that asks HasNext once too often makes the
+// predicate run on later elements.
+func Source[T any](e *Env, kind int, xs []T) fp.Iterator[T] {
+	type item struct {
+		v    T
+		keep bool
+		name string
+	}
+	var items []item
+	if kind == 0 {
+		for k, x := range xs {
+			items = append(items, item{x, true, "#" + Itoa(k+1)})
+		}
+	} else {
+		var zero T
+		for k, x := range xs {
+			items = append(items, item{x, false, "junk-before#" + Itoa(k+1)}, item{x, true, "#" + Itoa(k+1)})
+		}
+		items = append(items, item{zero, false, "junk-last1"}, item{zero, false, "junk-last2"})
+	}
+	k := 0
+	last := -1 // index of the item handed out last
+	base := fp.MakeIterator(func() bool {
+		e.Call("src.hasNext")
+		return k < len(items)
+	}, func() T {
+		if k >= len(items) {
+			e.Call("src.next", "exhausted")
+			panic("next on empty iterator")
+		}
+		e.Call("src.next", items[k].name)
+		last = k
+		k++
+		return items[last].v
+	})
+	switch kind {
+	case 1:
+		return base.Filter(func(T) bool {
+			e.Call("src.pred", items[last].name)
+			return items[last].keep
+		})
+	case 2:
+		return iterator.FilterMap(base, func(v T) fp.Option[T] {
+			e.Call("src.fn", items[last].name)
+			if items[last].keep {
+				return fp.Some(v)
+			}
+			return fp.None[T]()
+		})
+	}
+	return base
+}
+
+// Drain pulls a source to its end (the eager definition of the StateT folds, which build the
+// whole action before anything runs).
+func Drain[T any](it fp.Iterator[T]) []T {
+	out := []T{}
+	for it.HasNext() {
+		out = append(out, it.Next())
+	}
+	return out
 }
